@@ -23,7 +23,7 @@ RULE = (
     "geometry; (b) blocked/mixed space or >= 2 terms; (c) tolerance looser than default; (d) always; distinct by spec hash."
 )
 P_SUMFACT = {"cells": ["quadrilateral", "hexahedron"], "measures": ["dx"], "tp": True, "maxdeg": 3, "max_integrals": 3, "depth": 1,
-             "manifold": 0.0, "nonaffine": 0.5, "min_qdeg": 2, "max_qdeg": 4, "p_scheme": 0.1, "p_vertex": 0.03, "ncoef": (0, 2), "ids": "few", "p_tp_sibling": 0.5}
+             "manifold": 0.0, "nonaffine": 0.5, "min_qdeg": 2, "max_qdeg": 4, "p_scheme": 0.35, "p_vertex": 0.03, "ncoef": (0, 2), "ids": "few", "p_tp_sibling": 0.5}
 P_DIAG = {"cells": ["interval", "triangle", "quadrilateral", "tetrahedron", "prism"], "measures": ["dx", "dx", "ds", "dS"], "arities": [2], "same_args": True, "max_integrals": 3, "depth": 1, "maxdeg": 2,
           "max_qdeg": 3, "ids": "few", "p_scheme": 0.0, "p_vertex": 0.0}
 P_TOL = {"measures": ["dx", "ds"], "max_integrals": 2, "depth": 2, "maxdeg": 3}
